@@ -117,7 +117,7 @@ def has_cells(ctx, c):
 
 def jobs(ctx):
     cfgs = [c for c in hist.shipped_configs(ctx) if has_cells(ctx, c)]
-    return [(c, {}) for c in cfgs] + hist.variations(ctx, cfgs, ctx.n(10, 100))
+    return [(c, {}) for c in cfgs] + hist.crowded_jobs(cfgs) + hist.variations(ctx, cfgs, ctx.n(10, 100))
 
 
 def payloads(ctx):
